@@ -183,9 +183,14 @@ Record vmeta := mkMeta {
   vm_xoprob : option (list Z); vm_hapgrp : option (list Z); vm_hapalt : option (list Z); vm_hapref : option (list Z);
   vm_mask : option (list Z);
   vm_chrgrp_name : option (list Z); vm_chrgrp_stix : option (list Z); vm_chrgrp_spix : option (list Z); vm_chrgrp_len : option (list Z) }.
-(** the constructor call passes vrnt_chrgrp, vrnt_phypos, vrnt_name, vrnt_genpos, vrnt_xoprob, vrnt_hapgrp and vrnt_mask
-    and then copies the four vrnt_chrgrp_* arrays; vrnt_hapalt / vrnt_hapref are not passed on *)
+(** the constructor call passes vrnt_chrgrp, vrnt_phypos, vrnt_name, vrnt_genpos, vrnt_xoprob, vrnt_hapgrp, vrnt_hapalt,
+    vrnt_hapref and vrnt_mask and then copies the four vrnt_chrgrp_* arrays (field by field, as in the source) *)
 Definition progeny_meta (m : vmeta) : vmeta :=
+  mkMeta (vm_chrgrp m) (vm_phypos m) (vm_name m) (vm_genpos m) (vm_xoprob m) (vm_hapgrp m) (vm_hapalt m) (vm_hapref m) (vm_mask m)
+         (vm_chrgrp_name m) (vm_chrgrp_stix m) (vm_chrgrp_spix m) (vm_chrgrp_len m).
+(** the hand-over before the repair (/repo commit 79a4ba88): vrnt_hapalt / vrnt_hapref were not passed on.
+    Kept only to state the refutation that documents the repaired defect; not used by [mate]. *)
+Definition progeny_meta_dropped (m : vmeta) : vmeta :=
   mkMeta (vm_chrgrp m) (vm_phypos m) (vm_name m) (vm_genpos m) (vm_xoprob m) (vm_hapgrp m) None None (vm_mask m)
          (vm_chrgrp_name m) (vm_chrgrp_stix m) (vm_chrgrp_spix m) (vm_chrgrp_len m).
 
@@ -236,6 +241,24 @@ Definition mate (p : protocol) (geno : list (list (list Z))) (xoprob : list Q) (
   | _, _ => None
   end.
 
+(** ** feeding the draws: the implementation's uniforms are shipped as one flat pool in consumption order; the model first
+    tells which matrices it requests (the shapes do not depend on the draws), the pool is carved accordingly, then the model runs.
+    A request for zero rows consumes nothing, so such requests are not compared. *)
+Fixpoint chunk (n c : nat) (l : list Q) : list (list Q) :=
+  match n with O => [] | S n' => firstn c l :: chunk n' c (skipn c l) end.
+Fixpoint carve (pool : list Q) (shapes : list (nat * nat)) : list (list (list Q)) :=
+  match shapes with
+  | [] => []
+  | (r, c) :: t => chunk r c pool :: carve (skipn (r * c) pool) t
+  end.
+Definition nz_shapes (l : list (nat * nat)) : list (nat * nat) := filter (fun s => negb (Nat.eqb (fst s) 0)) l.
+Definition mate_pool (p : protocol) (geno : list (list (list Z))) (xoprob : list Q) (meta : vmeta) (xc : list (list nat))
+  (nmating nprogeny : nat + list nat) (nself : nat) (pc fc : Z) (pool : list Q) : option progeny :=
+  match mate p geno xoprob meta xc nmating nprogeny nself pc fc [] with
+  | None => None
+  | Some x0 => mate p geno xoprob meta xc nmating nprogeny nself pc fc (carve pool (p_reqs x0))
+  end.
+
 (** ** comparison for the correspondence shards *)
 Definition ozl_eqb := opt_eqb zl_eqb.
 Definition vmeta_eqb (a b : vmeta) : bool :=
@@ -247,5 +270,5 @@ Definition vmeta_eqb (a b : vmeta) : bool :=
 Definition progeny_eqb (a b : progeny) : bool :=
   zlll_eqb (p_mat a) (p_mat b) && zll_eqb (p_taxa a) (p_taxa b) && zl_eqb (p_grp a) (p_grp b) &&
   zl_eqb (p_gname a) (p_gname b) && zl_eqb (p_gstix a) (p_gstix b) && zl_eqb (p_gspix a) (p_gspix b) && zl_eqb (p_glen a) (p_glen b) &&
-  vmeta_eqb (p_meta a) (p_meta b) && Z.eqb (p_pc a) (p_pc b) && Z.eqb (p_fc a) (p_fc b) && shapes_eqb (p_reqs a) (p_reqs b).
+  vmeta_eqb (p_meta a) (p_meta b) && Z.eqb (p_pc a) (p_pc b) && Z.eqb (p_fc a) (p_fc b) && shapes_eqb (nz_shapes (p_reqs a)) (nz_shapes (p_reqs b)).
 Definition agree_mate (m : option progeny) (impl : option progeny) : bool := opt_eqb progeny_eqb m impl.
